@@ -20,7 +20,7 @@ const gapByte = 255
 const standardResidues = "ARNDCQEGHILKMFPSTWYV"
 
 func rulesC09(c *Ctx, r *Report) {
-	r.explain("Decides: (T1-T3) each shipped matrix PAM120/160/250, BLOSUM45/62/80 is assigned exactly once, in an init, from a literal whose constant entries are complete over its alphabet (which contains the 20 standard residues and Gap), symmetric, with {Gap,Gap}=0, and nothing else in the module writes it — the property's last sentence for every entry; (T4) Levenshtein's initialiser stores 0 on the i==j edge and -1 on the other for all byte pairs, by SSA shape; (ORD-M) decideOnStep returns a maximal argument in all 13 weak orderings; (SIB1/SIB2) the Global and Local recurrences agree symbolically. Not decided: optimality itself, equality with the edit distance. Added rules: (CLAMP) Local's clamp on every store path (optimality of Local needs the floor at zero); T4 accepts counted and range-int loops over 0..255 with no other exit. (REV) shared from C08: steps completely reversed, or back-filled into a buffer that holds the longest path — the traceback cannot panic on long alignments; (PURE) Global/Local and what they call keep no state between calls and write none of a, b, m (a score table cached across calls answers for an edited matrix with stale scores); (T4, extended) the Levenshtein map is never stored into another variable (an alias edited later edits the table). (T-START) shared from C08: Local's walk starts at a best cell of the whole table (the optimum of a local alignment is the maximum over all cells). T4 falls back on constant folding of the package initialiser (E-FOLD) when the initialiser has another shape.")
+	r.explain("Decides: (T1-T3) each shipped matrix PAM120/160/250, BLOSUM45/62/80 is assigned exactly once, in an init, from a literal whose constant entries are complete over its alphabet (which contains the 20 standard residues and Gap), symmetric, with {Gap,Gap}=0, and nothing else in the module writes it — the property's last sentence for every entry; (T4) Levenshtein's initialiser stores 0 on the i==j edge and -1 on the other for all byte pairs, by SSA shape; (ORD-M) decideOnStep returns a maximal argument in all 13 weak orderings; (SIB1/SIB2) the Global and Local recurrences agree symbolically. Not decided: optimality itself, equality with the edit distance. Added rules: (CLAMP) Local's clamp on every store path (optimality of Local needs the floor at zero); T4 accepts counted and range-int loops over 0..255 with no other exit. (REV) shared from C08: steps completely reversed, or back-filled into a buffer that holds the longest path — the traceback cannot panic on long alignments; (PURE) Global/Local and what they call keep no state between calls and write none of a, b, m (a score table cached across calls answers for an edited matrix with stale scores); (T4, extended) the Levenshtein map is never stored into another variable (an alias edited later edits the table). (T-START) shared from C08: Local's walk starts at a best cell of the whole table (the optimum of a local alignment is the maximum over all cells). T4 falls back on constant folding of the package initialiser (E-FOLD) when the initialiser has another shape. (T0, extended) no initialiser edits a shipped matrix after its literal; (AS-TRACED) shared from C08.")
 	r.assume("compile-time constant evaluation by go/types; SubstitutionMatrix.Get is the only reader of the tables in the aligners")
 	rulesLocalClamp(c, r)
 	rulesTraceFollowsFill(c, r) // the traceback moves as the fill read, and Local's start offsets are those of its first cell: the steps returned have the score returned
